@@ -799,7 +799,7 @@ def check_worker_loop(chk, unit):
                 function=drv["qname"], construct="worker loop condition")
     if counter_key is None:
         return
-    g = C.CFG(drv, body=loop["body"], name="hydro worker loop body")
+    g = C.CFG(drv, body=loop["body"], name="hydro worker loop body", loop_body=True)
 
     def calls_in(node, pred):
         if node.ast is None or node.kind == "marker" or node.ast.get("k") in ("Abort", "RangeHasNext"):
@@ -938,7 +938,7 @@ def check_worker_loop(chk, unit):
             len(adds), len(incs), len(zero_tests), bound18, orig_end and begin)
         if okw5:
             # add/inc are control dependent on the zero test: build the CFG of the inner loop body
-            gi = C.CFG(drv, body=inner[0]["body"], name="enqueue loop body")
+            gi = C.CFG(drv, body=inner[0]["body"], name="enqueue loop body", loop_body=True)
 
             def tr(node, st):
                 seen, bad = st
